@@ -197,7 +197,8 @@ def protocol(v, inverse):
             try:
                 h1 = hash(x)
                 y = x._replace()
-                ok = (y == x) and (hash(y) == h1) and (len({x, y}) == 1)
+                z = x._replace(**x._asdict())                    # every field handed over by keyword
+                ok = (y == x) and (hash(y) == h1) and (len({x, y}) == 1) and (z == x)
                 keys = tuple(inverse.get(k, k) for k in x._asdict())
                 repr(x)
                 out.append(('ok' if ok else 'inconsistent', keys))
